@@ -108,6 +108,12 @@ def check(ctx):
                "default), and calc hands a ledger constructed by this call to the pass", floor=2)
     ctx.guarded(o, lambda o: sched_fill.ledger_fresh(ctx, o, S))
 
+    from .c03 import resource_table
+    o = ctx.ob('resource_of_its_own', 'R5',
+               "every resource name gets a Resource object of its own (table keyed by name, a fresh default Resource per undeclared "
+               "name): capacity is measured per resource, not against one shared default object", floor=3)
+    ctx.guarded(o, lambda o: resource_table(ctx, o, (S,)))
+
     o = ctx.ob('selector_everywhere', 'R11',
                "every ledger query of the backward scheduler uses the selector 'all tasks when balancing, own task otherwise' "
                "(agreement with the forward scheduler and between search, fill and the post-loop fraction)", floor=3)
